@@ -132,11 +132,11 @@ func (r *Run) tryReplay(o *Obligation, rf *ReplayFile) {
 	// <func>.<label>.tmpl (label = any substring of the obligation name) is preferred over <func>.tmpl
 	tmplPath := filepath.Join(r.Out, "replay_templates", o.Func+".tmpl")
 	if cands, _ := filepath.Glob(filepath.Join(r.Out, "replay_templates", o.Func+".*.tmpl")); len(cands) > 0 {
+		best := 0
 		for _, c := range cands {
 			mid := strings.TrimSuffix(strings.TrimPrefix(filepath.Base(c), o.Func+"."), ".tmpl")
-			if mid != "" && strings.Contains(o.Name, mid) {
-				tmplPath = c
-				break
+			if mid != "" && strings.Contains(o.Name, mid) && len(mid) > best {
+				tmplPath, best = c, len(mid) // the most specific label wins
 			}
 		}
 	}
